@@ -25,5 +25,32 @@ Example C12_old_code_refuted :
   fst (do_history_old (mkPO None []) h) = [[]; []] /\ map expected h = [[]; [EmStderr]].
 Proof. exact old_code_refuted. Qed.
 
+(* A portfolio run (members' outcomes listed in the order they were added; None = passed, Some e = panicked with
+   payload e) passes exactly when every member passes; when it fails it re-raises the payload of one of its failing
+   members, never an assertion of its own, with or without stop_on_first_failure. *)
+Theorem C12_portfolio_passes_iff : forall stop rs, portfolio_run stop rs = PfOk <-> Forall (fun r => r = None) rs.
+Proof. exact portfolio_passes_iff. Qed.
+Theorem C12_portfolio_payload_of_member : forall stop rs e, portfolio_run stop rs = PfMember e -> In (Some e) rs.
+Proof. exact portfolio_payload_of_member. Qed.
+Theorem C12_portfolio_never_asserts : forall stop rs, portfolio_run stop rs <> PfAssert.
+Proof. exact portfolio_never_asserts. Qed.
+(* the code before repair F34 failed with its own assertion *)
+Example C12_portfolio_old_refuted :
+  portfolio_run_old false [None; Some 7; None] = PfAssert /\ portfolio_run false [None; Some 7; None] = PfMember 7.
+Proof. exact portfolio_old_refuted. Qed.
+
+(* The ungraceful-shutdown settings in force during a run are the run's own, whatever runs (threads, settings)
+   came before; a run with the default settings therefore re-raises the panicking task's own payload. *)
+Theorem C12_shutdown_settings_are_own : forall h s t cfg, fst (ug_run (ug_history s h) t cfg) = cfg.
+Proof. exact ug_effective_is_own. Qed.
+Theorem C12_default_run_reraises_own : forall h s t sw own,
+  panic_result (fst (ug_run (ug_history s h) t ug_default)) sw own = PayOwn own.
+Proof. exact default_run_reraises_own. Qed.
+
 Print Assumptions C12_emission.
+Print Assumptions C12_portfolio_passes_iff.
+Print Assumptions C12_portfolio_payload_of_member.
+Print Assumptions C12_portfolio_never_asserts.
+Print Assumptions C12_shutdown_settings_are_own.
+Print Assumptions C12_default_run_reraises_own.
 Print Assumptions C12_emission_one_run.
